@@ -6,9 +6,9 @@ STORE_FILES = ["modeling/mesh.go", "modeling/tri.go", "modeling/line.go", "model
 
 CFG = dict(
     gen=[dict(tool="facts", mode="c01.stores", out="C01Stores.lean", args=STORE_FILES)],
-    theorems=["op_frame", "op_writes_fresh_only", "step_valid", "step_immutable", "run_valid",
-              "history_immutable", "empty_valid", "derivations_commute_partial", "appendInPlace_breaks",
-              "store_sites_fresh", "store_sites_cover"],
+    theorems=["op_frame", "op_writes_fresh_only", "step_immutable", "history_immutable",
+              "derivations_commute_partial", "appendInPlace_breaks", "store_sites_fresh"],
+    helper_theorems=["step_valid", "run_valid", "empty_valid", "appliesInOrder_spec", "store_sites_cover"],
     streams=[dict(name="c01", n=dict(quick=300, thorough=6000))],
     trusted=T_COMMON + [
         "engine F extractor /verif/go/facts/c01.go (syntactic, intra-procedural provenance of store targets; conservative by construction; "
@@ -29,4 +29,27 @@ CFG = dict(
         "the pointed-to modeling.Material structs are compared by pointer identity and name only",
     ],
     assumptions=["Go's append writes in place iff len+k <= cap and otherwise returns a fresh array (growth policy arbitrary)"],
+    manifest=dict(
+        engine="F+H",
+        text="Lean 4 theorems about a heap-level model of Go slices/maps and of every class of mesh operation (share-all, "
+             "replace-one-attribute, copy-attribute, rebuild, read-only, Append as it is now = copy-then-extend, transcribed loop by loop): "
+             "op_frame / op_writes_fresh_only (an operation writes only memory it allocated - for the eleven non-Append classes this holds by "
+             "construction of the class, which only allocates; the content is the transcribed Append and the classification of every Go "
+             "function into its class, which is CORRESPONDED through the observed sharing graph and value snapshots, not proved from the Go "
+             "source), history_immutable (for every finite history of operations picking arguments anywhere in the pool - branching "
+             "derivations included - and every growth policy of append, every mesh keeps the observation it had when it entered), "
+             "derivations_commute_partial (no interference in either order), appendInPlace_breaks (closed witness of the old in-place Append), "
+             "plus the obligation store_sites_fresh, re-derived from the source on every run by a store-site extractor, that every store in "
+             "the mesh code (mesh.go, tri/line/point.go, meshops, repeat, primitives, ply/obj/stl writers) targets memory allocated in the "
+             "same call (decide over the regenerated site list). Tied to the code by (a) the regenerated store-site facts, (b) a heap-shape "
+             "correspondence (reflect-observed sharing graph of arguments and result of every operation vs the model's prediction), (c) value "
+             "snapshots of every live mesh after every operation and every mid-history primitive construction of generated histories, "
+             "(d) a bit-exact value correspondence of the model's appendCopy with Mesh.Append.",
+        note="Trusted: Lean kernel and the three standard axioms; the syntactic store-site extractor; the assignment of Go functions to "
+             "operation classes (corresponded, not proved); reflect/unsafe observation; harness. Not proved: derivations_commute_full "
+             "(layout independence of results; oracle c01.holds.rederive and the c01.append value correspondence instead); op_refines. "
+             "formats/gltf writer outside the static scan (value oracle only).",
+        technique="Lean 4 proof (induction over operation histories on a heap model) + regenerated store-site obligations + heap-shape "
+                  "and value correspondence",
+    ),
 )
